@@ -401,6 +401,14 @@ def gen_sync():
     text += "def fixReinsertsValue : Bool := %s\n" % str(reinserts).lower()
     text += "/-- sync_detect also fires for entities that just became SyncEntity (values carried at mark time, D2) -/\n"
     text += "def detectSeesNewSyncEntity : Bool := %s\n" % str(detects_added_entity).lower()
+    # every entity the detection query yields is queued, each on its own (no state carried from one entity of the loop to the next)
+    db = re.sub(r"\s+", "", fn_body(lib, "sync_detect"))
+    sb = re.sub(r"\s+", "", fn_body(lib, "sync_skinned_mesh"))
+    queues_each = (db == "for(sup,component)inq.iter(){push.signal_component_changed(sup.uuid,component.clone_value());}"
+                   and sb == "for(sup,component)inq.iter(){letcomponent_to_send=tracker.to_skinned_mapper(&assets,component);"
+                             "tracker.signal_component_changed(sup.uuid,component_to_send.clone_value());}")
+    text += "/-- both detection systems queue every entity their query yields, independently of the others in the same frame -/\n"
+    text += "def detectQueuesEveryMatch : Bool := %s\n" % str(queues_each).lower()
     # C16: the two translation loops and the name a SkinnedMesh change is signalled under
     tm = fn_body(lib, "to_skinned_mapper")
     ts = fn_body(lib, "to_skinned_mesh")
@@ -669,7 +677,23 @@ def gen_ent():
                and "track.uuid_to_entity.retain(|&s_e_id,&mute_id|{ifquery.get(e_id).is_err(){despawned_entities.insert(s_e_id);false}else{true}});" in cb
                and "Message::EntityDelete{id}" in cb)
     text = "/-! GENERATED by /verif/translate/translate.py from src/{server,client}/{receiver,track}.rs — do not edit. -/\nnamespace BevySync\nnamespace Generated\n\n"
-    for name, val in (("entDeleteHandlersNamedEntityOnly", c_del and s_del), ("entSpawnHandlers", c_spawn and s_spawn), ("entRemovedDetectors", removed)):
+    # the uuid maps only ever lose the entry of an entity that is gone: the two delete handlers and the two removal detectors are
+    # the only places that shrink them, nothing clears or replaces them (a peer that joins again keeps what it knows, which is
+    # what the duplicate-spawn guard relies on)
+    shrinks = 0
+    wholesale = False
+    for root, _, files in os.walk(os.path.join(REPO, "src")):
+        for fnm in files:
+            if not fnm.endswith(".rs") or fnm == "verif.rs":
+                continue
+            t = re.sub(r"\s+", "", strip_comments(open(os.path.join(root, fnm)).read()))
+            for m in ("uuid_to_entity", "entity_to_uuid"):
+                shrinks += len(re.findall(r"%s\.(remove|retain)\(" % m, t))
+                if re.search(r"%s\.(clear|drain|split_off|truncate)\(|%s=|mem::(take|replace|swap)\([^)]*%s" % (m, m, m), t):
+                    wholesale = True
+    maps_kept = shrinks == 7 and not wholesale
+    for name, val in (("entDeleteHandlersNamedEntityOnly", c_del and s_del), ("entSpawnHandlers", c_spawn and s_spawn), ("entRemovedDetectors", removed),
+                      ("entMapsShrinkOnlyOnRemoval", maps_kept)):
         text += "def %s : Bool := %s\n" % (name, str(bool(val)).lower())
     text += FOOTER
     write("Ent.lean", text)
